@@ -16,16 +16,39 @@ Open Scope N_scope.
 Theorem C17_has_impl_sound : forall (c : cfg) (T : space) (f : nat) (i : id) (t : trait),
   newtype_inner_ok T = true ->
   has_impl c T f i t = true ->
-  (fix_display_constrained c = false -> known_display_constrained T i t = false) ->
+  (fix_display_constrained c = false -> fix_display_facade c = false ->
+   known_display_constrained T i t = false) ->
   (fix_nonzero_default c = false -> known_nonzero_default T f i t = false) ->
   implements c T f i t = true.
 Proof. exact has_impl_sound. Qed.
 
-(* with both repairs the statement holds at full strength *)
+(* with the NonZero repair (/repo 2273521) and either repair of F1 (C17-1: emit the
+   impl; C17-3: the facade answers false) the statement holds at full strength *)
 Theorem C17_has_impl_sound_repaired : forall (T : space) (f : nat) (i : id) (t : trait),
   newtype_inner_ok T = true ->
   has_impl repaired T f i t = true -> implements repaired T f i t = true.
 Proof. exact has_impl_sound_repaired. Qed.
+
+Theorem C17_has_impl_sound_repaired_facade : forall (T : space) (f : nat) (i : id) (t : trait),
+  newtype_inner_ok T = true ->
+  has_impl repaired_facade T f i t = true -> implements repaired_facade T f i t = true.
+Proof. exact has_impl_sound_repaired_facade. Qed.
+
+(* the facade repair changes the API's answer only inside the class of F1 (it cannot
+   change the output: emitted_r / implements do not mention the facade) *)
+Theorem C17_facade_repair_changes_only_known : forall (a b : bool) (T : space) (f : nat) (i : id) (t : trait),
+  known_display_constrained T i t = false ->
+  has_impl (mkCfg a b true) T f i t = has_impl (mkCfg a b false) T f i t.
+Proof. exact facade_only_changes_known. Qed.
+
+(* the tree after 2273521 (cfg `current`) still has F1 *)
+Theorem C17_has_impl_sound_refuted_display_constrained_current :
+  exists T f i, newtype_inner_ok T = true /\ has_impl current T f i TDisplay = true /\
+                forall f', implements current T f' i TDisplay = false.
+Proof.
+  exists wit_display, 3%nat, 1. split; [reflexivity | split; [reflexivity|]].
+  intros f'. destruct f' as [|f']; reflexivity.
+Qed.
 
 Theorem C17_has_impl_sound_refuted_display_constrained :
   exists T f i, newtype_inner_ok T = true /\ has_impl pinned T f i TDisplay = true /\
@@ -129,6 +152,10 @@ Proof. vm_compute. reflexivity. Qed.
 
 Example C17_ex_repaired_nonzero : has_impl repaired wit_nonzero 3 4 TDefault = false.
 Proof. vm_compute. reflexivity. Qed.
+
+Example C17_ex_repaired_facade_display : has_impl repaired_facade wit_display 3 1 TDisplay = false
+  /\ has_impl repaired_facade wit_display 3 1 TFromStr = true.
+Proof. split; vm_compute; reflexivity. Qed.
 
 Definition ex_rank (i : id) : nat := if i =? 1 then 2 else if i =? 4 then 1 else 0.
 
